@@ -221,6 +221,13 @@ func NewClientConn(ctx context.Context, sid [64]byte, serverHost string,
 		ctxc, gbnN, c.send, c.recv, c.gbnOptions...,
 	)
 	if err != nil {
+		// The handshake has opened the transport's sockets/streams.
+		// The caller gets nothing that it could close, so release
+		// them here.
+		if closeErr := c.Close(); closeErr != nil {
+			logger.Debugf("Error closing failed conn: %v", closeErr)
+		}
+
 		return nil, err
 	}
 	c.gbnConn = gbnConn
@@ -232,6 +239,30 @@ func NewClientConn(ctx context.Context, sid [64]byte, serverHost string,
 // the passed ClientConn but with a new quit channel, a new closeOnce var and
 // a new gbn connection.
 func RefreshClientConn(ctx context.Context, c *ClientConn) (*ClientConn,
+	error) {
+
+	cc, err := refreshClientConn(ctx, c)
+	if err != nil {
+		// As in NewClientConn: release what the handshake has opened.
+		// This is done here, after the locks of the previous
+		// connection have been released.
+		if cc != nil {
+			if closeErr := cc.Close(); closeErr != nil {
+				c.log.Debugf("Error closing failed conn: %v",
+					closeErr)
+			}
+		}
+
+		return nil, err
+	}
+
+	return cc, nil
+}
+
+// refreshClientConn does the work of RefreshClientConn with the locks of the
+// previous connection held. If the gbn handshake fails, the half-built
+// connection is returned along with the error so that the caller can close it.
+func refreshClientConn(ctx context.Context, c *ClientConn) (*ClientConn,
 	error) {
 
 	c.sendMu.Lock()
@@ -268,7 +299,7 @@ func RefreshClientConn(ctx context.Context, c *ClientConn) (*ClientConn,
 		ctx, gbnN, cc.send, cc.recv, cc.gbnOptions...,
 	)
 	if err != nil {
-		return nil, err
+		return cc, err
 	}
 	cc.gbnConn = gbnConn
 
